@@ -30,6 +30,10 @@ pub struct Scan {
     /// names of struct/enum/type items in the root module
     pub root_type_names: BTreeSet<String>,
     pub n_items: usize,
+    /// a cycle of by-value containment among the root module's types, read off
+    /// the rendered definitions themselves (Box/Vec/maps/sets are indirections;
+    /// Option, tuples and fixed arrays are not)
+    pub by_value_cycle: Option<Vec<String>>,
 }
 
 impl Scan {
@@ -507,7 +511,111 @@ pub fn scan_file(file: &syn::File) -> Scan {
     };
     r.visit_file(file);
     scan.unresolved = r.unresolved.into_iter().collect();
+    scan.by_value_cycle = by_value_cycle(file);
     scan
+}
+
+fn by_value_targets(ty: &syn::Type, local: &BTreeSet<String>, out: &mut BTreeSet<String>) {
+    match ty {
+        syn::Type::Path(tp) => {
+            let Some(last) = tp.path.segments.last() else { return };
+            let name = last.ident.to_string();
+            match name.as_str() {
+                "Option" => {
+                    if let syn::PathArguments::AngleBracketed(a) = &last.arguments {
+                        for arg in &a.args {
+                            if let syn::GenericArgument::Type(t) = arg {
+                                by_value_targets(t, local, out);
+                            }
+                        }
+                    }
+                }
+                // heap indirections (and anything generic the output did not define)
+                "Box" | "Vec" | "HashMap" | "BTreeMap" | "HashSet" | "BTreeSet" | "Map" => {}
+                _ => {
+                    if tp.qself.is_none() && tp.path.leading_colon.is_none() && tp.path.segments.len() == 1 && local.contains(&name) {
+                        out.insert(name);
+                    }
+                }
+            }
+        }
+        syn::Type::Array(a) => by_value_targets(&a.elem, local, out),
+        syn::Type::Tuple(t) => {
+            for e in &t.elems {
+                by_value_targets(e, local, out);
+            }
+        }
+        syn::Type::Paren(p) => by_value_targets(&p.elem, local, out),
+        syn::Type::Group(g) => by_value_targets(&g.elem, local, out),
+        _ => {}
+    }
+}
+
+/// Some cycle of by-value containment among the structs and enums of the root
+/// module, or None. Such a type has infinite size (rustc E0072).
+pub fn by_value_cycle(file: &syn::File) -> Option<Vec<String>> {
+    let mut local: BTreeSet<String> = BTreeSet::new();
+    for item in &file.items {
+        match item {
+            syn::Item::Struct(s) => {
+                local.insert(s.ident.to_string());
+            }
+            syn::Item::Enum(e) => {
+                local.insert(e.ident.to_string());
+            }
+            _ => {}
+        }
+    }
+    let mut graph: BTreeMap<String, BTreeSet<String>> = BTreeMap::new();
+    let fields_of = |fields: &syn::Fields, out: &mut BTreeSet<String>| {
+        for f in fields.iter() {
+            by_value_targets(&f.ty, &local, out);
+        }
+    };
+    for item in &file.items {
+        match item {
+            syn::Item::Struct(s) => {
+                let e = graph.entry(s.ident.to_string()).or_default();
+                fields_of(&s.fields, e);
+            }
+            syn::Item::Enum(en) => {
+                let e = graph.entry(en.ident.to_string()).or_default();
+                for v in &en.variants {
+                    fields_of(&v.fields, e);
+                }
+            }
+            _ => {}
+        }
+    }
+    // depth-first search with an explicit path
+    fn visit(n: &str, graph: &BTreeMap<String, BTreeSet<String>>, path: &mut Vec<String>, done: &mut BTreeSet<String>) -> Option<Vec<String>> {
+        if let Some(pos) = path.iter().position(|p| p == n) {
+            let mut cyc: Vec<String> = path[pos..].to_vec();
+            cyc.push(n.to_string());
+            return Some(cyc);
+        }
+        if done.contains(n) {
+            return None;
+        }
+        path.push(n.to_string());
+        if let Some(tos) = graph.get(n) {
+            for t in tos {
+                if let Some(c) = visit(t, graph, path, done) {
+                    return Some(c);
+                }
+            }
+        }
+        path.pop();
+        done.insert(n.to_string());
+        None
+    }
+    let mut done = BTreeSet::new();
+    for n in graph.keys() {
+        if let Some(c) = visit(n, &graph, &mut Vec::new(), &mut done) {
+            return Some(c);
+        }
+    }
+    None
 }
 
 #[cfg(test)]
